@@ -204,6 +204,72 @@ def run_case(job):
         return res
 
 
+def run_designspace(report, n, rng):
+    """the designspace document the real write_variable_font.main builds (the font compiler and the UFO reader
+    stubbed out, in a process of its own) against Model.VarModel: axis descriptors and every master's location, on
+    generated configurations (1-3 axes declared in random order, 2-4 masters, defaults anywhere in or out of the
+    range, fractional positions; and positions on a tag no axis declares)"""
+    import json
+    import subprocess
+    from concurrent.futures import ThreadPoolExecutor
+    from fractions import Fraction
+
+    from harness.common import listlit, strlit
+
+    def qlit_(v):
+        f = Fraction(v)
+        return f"({f.numerator} # {f.denominator})%Q" if f.numerator >= 0 else f"(({f.numerator}) # {f.denominator})%Q"
+
+    TAGS = [("wght", "Weight"), ("wdth", "Width"), ("slnt", "Slant"), ("opsz", "Optical Size"), ("ital", "Italic")]
+    plans = []
+    for i in range(n):
+        axes = rng.sample(TAGS, rng.randint(1, 3))
+        nm = rng.randint(2, 4)
+        masters = []
+        for m in range(nm):
+            pos = {t: rng.choice([0, -12, 100, 400, 87.5, 112.5, 900, 62.5, 125.5]) for t, _ in axes}
+            masters.append(pos)
+        kind = ["plain", "plain", "default-zero-not-lowest", "unknown-tag"][i % 4]
+        defaults = {t: rng.choice([masters[0][t], masters[-1][t], 0, 400]) for t, _ in axes}
+        if kind == "default-zero-not-lowest":
+            t0 = axes[0][0]
+            masters[0][t0], masters[1][t0], defaults[t0] = 0, -12, 0
+        if kind == "unknown-tag":
+            masters[-1]["zzzz"] = 5
+        plans.append((kind, axes, defaults, masters))
+
+    def work(plan):
+        kind, axes, defaults, masters = plan
+        with scratch_dir("verif-c18ds-") as d:
+            text = 'output_file="VF.ttf"\n' + "".join(f'[axis.{t}]\nname="{nme}"\ndefault={defaults[t]}\n' for t, nme in axes)
+            for m, pos in enumerate(masters):
+                text += f'[master.m{m}]\nstyle_name="M{m}"\n[master.m{m}.position]\n' + "".join(f"{t}={v}\n" for t, v in pos.items())
+            (d / "c.toml").write_text(text)
+            p = subprocess.run(["/venv/bin/python", str(Path(__file__).resolve().parent / "vf_probe.py"), "c.toml"], cwd=d, env=build.cli_env(), capture_output=True, text=True, timeout=300)
+            lines = [l for l in p.stdout.splitlines() if l.startswith("{")]
+            return json.loads(lines[-1]) if lines else dict(ok=False, error="no output: " + p.stderr[-400:])
+
+    with ThreadPoolExecutor(8) as ex:
+        outs = list(ex.map(work, plans))
+    cases, metas = [], []
+    for (kind, axes, defaults, masters), out in zip(plans, outs):
+        report.hist("designspace.kind", kind)
+        report.hist("designspace.outcome", "document" if out.get("ok") else "stopped: " + out.get("error", "?").split(":")[0])
+        report.count(("designspace", kind, str(axes), str(masters), str(defaults)), True)
+        al = listlit([f"({strlit(t)}, {strlit(nme)}, {qlit_(defaults[t])})" for t, nme in axes])
+        # config.load sorts every master's positions by tag
+        ml = listlit([listlit([f"({strlit(t)}, {qlit_(v)})" for t, v in sorted(pos.items())]) for pos in masters])
+        if out.get("ok"):
+            ods = listlit([f"({strlit(a[0])}, {strlit(a[1])}, {qlit_(a[2])}, {qlit_(a[3])}, {qlit_(a[4])})" for a in out["axes"]])
+            ols = listlit([listlit([f"({strlit(k)}, {qlit_(v)})" for k, v in s_[1]]) for s_ in out["sources"]])
+            obs = f"(Some ({ods}, {ols}))"
+        else:
+            obs = "None"
+        cases.append(f"({al}, {ml}, {obs})")
+        metas.append(dict(kind="corr", function="write_variable_font.main (designspace document)", case_kind=kind, axes=axes, defaults=defaults, masters=masters, observed=out))
+    common.evaluate_corr(report, ["Model.VarModel Corr.Common Corr.C18"], "Corr.C18", "designspace", "ds_case", cases, metas, "ds_agree", "ds_prop", shard=40)
+
+
 def run_negative(report):
     """masters whose source sets differ must not yield a font (C17's master class)"""
     with scratch_dir("verif-c18n-") as d:
@@ -229,7 +295,7 @@ def main(argv):
         "and positions), varying default master and metrics, built through the real CLI; the variable font is instantiated "
         "with fontTools.varLib.instancer at every master location and compared (COLR picture, advance) with the static CLI "
         "build of that master; at intermediate locations the clip box must contain the interpolated outlines; a configuration "
-        "whose masters disagree on their source sets must fail"
+        "whose masters disagree on their source sets must fail; model correspondence: the designspace document the real write_variable_font.main builds (compiler and UFO reader stubbed, own process) against Model.VarModel on generated axes/masters"
     )
     st = proof_gate(report)
     rng = random.Random(report.seed)
@@ -254,6 +320,8 @@ def main(argv):
             break
     report.sample({k: str(v)[:400] for k, v in results[0].items()})
     run_negative(report)
+    if common.vo_ok("Corr/C18.v") and not report.violations:
+        run_designspace(report, 16 if tier == "quick" else 160, random.Random(rng.getrandbits(48)))
     if not st["proof_ok"] and not report.violations:
         report.violation("proof", dict(kind="proof", theorem="Props/C18.v", detail=report.notes.get("proof_failure")), found_input=False)
     report.open_obligations = [
